@@ -2500,6 +2500,11 @@ class ACCEnterDataTrans(Transformation):
             raise TransformationError("Schedule already has an OpenACC data "
                                       "region - cannot add an enter data.")
 
+        if sched.ancestor((ACCParallelDirective, ACCKernelsDirective)):
+            raise TransformationError(
+                "Cannot add an OpenACC enter data directive to a Schedule "
+                "that is within an OpenACC compute region.")
+
 
 class ACCRoutineTrans(Transformation, MarkRoutineForGPUMixin):
     '''
